@@ -393,6 +393,17 @@ func Exec(t Target, w *World) *Result {
 	case "file", "symlink":
 		must(os.MkdirAll(filepath.Dir(w.Out), 0755))
 	}
+	switch w.OutKind {
+	case "symlink-cycle":
+		must(os.Symlink("x_link.go", w.Out))
+		must(os.Symlink("y_link.go", "x_link.go"))
+		must(os.Symlink("x_link.go", "y_link.go"))
+	case "symlink-dangling":
+		must(os.MkdirAll(filepath.Dir(w.Out), 0755))
+		must(os.Symlink("real_behind_link.go", w.Out)) // relative to the link's directory
+	case "symlink-self":
+		must(os.Symlink(filepath.Base(w.Out), w.Out))
+	}
 	if w.OutKind == "symlink" {
 		// -o is a symbolic link to an existing regular file
 		must(os.MkdirAll(filepath.Dir(w.Out), 0755))
@@ -491,7 +502,7 @@ func Exec(t Target, w *World) *Result {
 		if strings.HasSuffix(p, "/") {
 			continue // directories created on the way are not judged
 		}
-		if !beforeSet[p] && filepath.Clean(p) != filepath.Clean(w.Out) && p != "link_target.go" {
+		if !beforeSet[p] && filepath.Clean(p) != filepath.Clean(w.Out) && p != "link_target.go" && p != "out/real_behind_link.go" {
 			res.Stray = append(res.Stray, p)
 		}
 	}
